@@ -453,6 +453,23 @@ func (e *FnEnc) encodeBlock(b *ssa.BasicBlock) {
 	}
 }
 
+// evalPlaced evaluates a contract clause on the current code. A clause that names a struct field or a variable
+// the code no longer has cannot be placed (what was proved on the unchanged tree does not transfer): that is a
+// failed structural obligation, reported like any other violation, instead of an engine error for the whole check.
+func (e *FnEnc) evalPlaced(c *Clause, env *specEnv, what string) (res string, placed bool) {
+	defer func() {
+		if r := recover(); r != nil {
+			if u, ok := r.(unsupported); ok && (strings.Contains(u.msg, ": no field ") || strings.Contains(u.msg, "unknown identifier")) {
+				e.structural = append(e.structural, fmt.Sprintf("%s [%s] cannot be placed on the current code: %s", what, c.Label, u.msg))
+				res, placed = "true", false
+				return
+			}
+			panic(r)
+		}
+	}()
+	return e.evalBool(c.E, env, c), true
+}
+
 // evalLoopInv: a loop invariant that names a local variable the function no longer has cannot be placed
 // on the changed code (the inductive argument proved on the unchanged tree does not transfer): it is
 // reported as a failed structural obligation and treated as `true`, instead of aborting the whole check.
@@ -574,7 +591,10 @@ func (e *FnEnc) encodeExit() {
 	}
 	env := e.exitEnv()
 	for _, c := range e.c.Ensures {
-		t := e.evalBool(c.E, env, c)
+		t, placed := e.evalPlaced(c, env, "postcondition")
+		if !placed {
+			continue
+		}
 		e.flushFacts()
 		lbl := c.Label
 		if lbl == "" {
